@@ -343,6 +343,30 @@ impl Row {
         self
     }
 
+    /// Gives every other column that holds the same node or relationship as column `name`
+    /// the value of `name`: an update made through one variable shows through its aliases.
+    pub(crate) fn sync_aliases_of(mut self, name: &str) -> Self {
+        let Some(value) = self.get(name).cloned() else {
+            return self;
+        };
+        for (column, other) in self.cols.iter_mut() {
+            if column == name {
+                continue;
+            }
+            let same = match (&value, &*other) {
+                (Value::Node(node), Value::Node(alias)) => node.id == alias.id,
+                (Value::Node(node), Value::NodeId(alias)) => node.id == *alias,
+                (Value::Relationship(rel), Value::Relationship(alias)) => rel.key == alias.key,
+                (Value::Relationship(rel), Value::EdgeKey(alias)) => rel.key == *alias,
+                _ => false,
+            };
+            if same {
+                *other = value.clone();
+            }
+        }
+        self
+    }
+
     pub fn get_node(&self, name: &str) -> Option<InternalNodeId> {
         self.cols.iter().find_map(|(k, v)| {
             if k == name {
